@@ -433,7 +433,10 @@ def conservation_oracle(h, model, phys, viol, stats, kind, tag="C02"):
                 continue
             scale = float((np.abs(rx).sum(axis=2) @ np.abs(cv)).max())
             dev = float(np.abs(series - series[0]).max())
-            if dev > 1e-9 * scale + 1e-300:
+            if scale > 0:
+                stats["max_euler_conservation_rel_dev"] = max(stats.get("max_euler_conservation_rel_dev", 0.0), dev / scale)
+            # (rounding only: every step adds pairs of terms that cancel; ~1e-16 x steps x scale)
+            if dev > 1e-11 * scale + 1e-300:
                 viol.append({"oracle": tag + ".conserved", "detail":
                              "combination %s drifts by %r (scale %r) over %d samples of an Euler run" % (c, dev, scale, n)})
                 return
@@ -468,7 +471,7 @@ def conservation_oracle(h, model, phys, viol, stats, kind, tag="C02"):
         scale = float((np.abs(data).sum(axis=2) @ np.abs(cv)).max())
         dev = float(np.abs(series - series[0]).max())
         stats["conservation_series_in_trajectory_data"] = stats.get("conservation_series_in_trajectory_data", 0) + 1
-        if dev > 1e-9 * scale + 1e-300:
+        if dev > 1e-11 * scale + 1e-300:
             k = int(np.argmax(np.abs(series - series[0])))
             viol.append({"oracle": tag + ".conserved", "detail":
                          "trajectory.data: combination %s has total %r in sample 0 and %r in sample %d of a %s run (scale %r)" % (
